@@ -8,7 +8,8 @@ MQ = 'src/server/mq.rs'
 EV = 'src/server/ca/events.rs'
 
 KEEP = ['RoasUpdated', 'AspaObjectsUpdated', 'ChildCertificatesUpdated', 'BgpSecCertificatesUpdated', 'ChildKeyRevoked', 'KeyPendingToNew',
-        'KeyPendingToActive', 'KeyRollFinished', 'KeyRollActivated', 'ParentRemoved', 'ResourceClassRemoved', 'UnexpectedKeyFound', 'CertificateRequested']
+        'KeyPendingToActive', 'KeyRollFinished', 'KeyRollActivated', 'ParentRemoved', 'ResourceClassRemoved', 'UnexpectedKeyFound', 'CertificateRequested',
+        'ParentAdded', 'ParentUpdated', 'RepoUpdated']
 
 SPEC = r'''
 /// obligation predicate: a successful schedule call for this task was made on this queue.  Only ever ESTABLISHED by the assumed
@@ -20,6 +21,14 @@ impl CertAuth {
     #[verifier::external_body] pub fn handle(&self) -> (r: &CaHandle) ensures *r == ca_handle_of(*self) { unimplemented!() }
     #[verifier::external_body] pub fn parent_for_rc(&self, rcn: &ResourceClassName) -> (r: KrillResult<&ParentHandle>)
         ensures match r { Ok(p) => parent_of(*self, *rcn) == Some(*p), Err(_) => parent_of(*self, *rcn) is None } { unimplemented!() }
+}
+/// the parents of the CA, as a list (CertAuth::parents hands out an iterator over the keys of its parent map; read as the
+/// finite list it yields -- ASSUMED)
+pub uninterp spec fn parents_of(c: CertAuth) -> Seq<ParentHandle>;
+pub uninterp spec fn has_repo(c: CertAuth) -> bool;
+impl CertAuth {
+    #[verifier::external_body] pub fn parents(&self) -> (r: Vec<ParentHandle>) ensures r@ == parents_of(*self) { unimplemented!() }
+    #[verifier::external_body] pub fn repository_contact(&self) -> (r: KrillResult<&RepositoryContact>) ensures (r is Ok) == has_repo(*self) { unimplemented!() }
 }
 pub assume_specification [now] () -> (r: Priority);
 pub open spec fn changes_published_objects(e: CertAuthEvent) -> bool {
@@ -34,7 +43,7 @@ def build():
     prelude.strings(U)
     for t in ['CaHandle', 'ParentHandle', 'ResourceClassName', 'RevocationRequest']:
         U.opaque(t, 'Clone')
-    for t in ['Error', 'CertAuth', 'Priority', 'Queue']:
+    for t in ['Error', 'CertAuth', 'Priority', 'Queue', 'RepositoryContact']:
         U.opaque(t, '')
     U.outside('pub type KrillResult<T> = Result<T, Error>;\npub fn now() -> Priority { unimplemented!() }')
     U.auto_opaque = True
@@ -50,7 +59,20 @@ def build():
         U.fn(MQ, 'TaskQueue', 'schedule_and_finish_existing', external_body=True, ensures=[('assumed', 'r is Ok ==> scheduled(*self, task)')]),
         U.fn(MQ, 'TaskQueue', 'schedule_for_ca_event', keep_arms={'CertAuthEvent': KEEP},
              requires=[('kept_events_only', '!(event is VxOther)')],
+             loops={0: {'iter': 'vx_it', 'invariant': [
+                 ('visited_parents_scheduled', '''forall |j: int| 0 <= j < vx_it.index@ ==>
+                        scheduled(*self, Task::SyncParent { ca_handle: ca_handle_of(*ca), ca_version, parent: #[trigger] parents_of(*ca)[j] })'''),
+                 ('handle', 'ca_handle == ca_handle_of(*ca)'),
+             ]}},
+             ghost=[(('loop_start', 0), 'proof { assert(parent == parents_of(*ca)[vx_it.index@ as int]); }')],
              ensures=[
+                 # a parent added before the repository is configured is not contacted then; the configuration of the repository is
+                 # what starts the synchronisation with EVERY parent the CA has at that point
+                 ('configured_repository_starts_the_sync_with_every_parent', '''r is Ok && event is RepoUpdated ==> forall |j: int| 0 <= j < parents_of(*ca).len() ==>
+                        scheduled(*self, Task::SyncParent { ca_handle: ca_handle_of(*ca), ca_version, parent: #[trigger] parents_of(*ca)[j] })'''),
+                 ('new_or_updated_parent_is_synchronised_once_a_repository_exists', '''r is Ok && has_repo(*ca) ==>
+                        (event is ParentAdded ==> scheduled(*self, Task::SyncParent { ca_handle: ca_handle_of(*ca), ca_version, parent: event->ParentAdded_parent }))
+                        && (event is ParentUpdated ==> scheduled(*self, Task::SyncParent { ca_handle: ca_handle_of(*ca), ca_version, parent: event->ParentUpdated_parent }))'''),
                  ('object_or_key_change_syncs_the_repository', '''r is Ok && changes_published_objects(*event) ==>
                         scheduled(*self, Task::SyncRepo { ca_handle: ca_handle_of(*ca), ca_version })'''),
                  ('certificate_request_syncs_the_parent', '''r is Ok && event is CertificateRequested && parent_of(*ca, event->CertificateRequested_resource_class_name) is Some ==>
